@@ -158,6 +158,11 @@ class CustomCorrelations(BaseCorrelations):
 
         super().__init__(name, description)
 
+    def __setattr__(self, name, value):
+        """Set an attribute; cached integrals depend on the parameters. """
+        super().__setattr__(name, value)
+        CustomCorrelations.correlation_2d_integral.cache_clear()
+
     def __str__(self) -> Text:
         ret = []
         ret.append(super().__str__())
@@ -409,12 +414,20 @@ class CustomSD(BaseCorrelations):
                 tmp_temperature))
         self.temperature = tmp_temperature
 
-        self._cutoff_function = \
-            lambda omega: CUTOFF_DICT[self.cutoff_type](omega, self.cutoff)
-        self._spectral_density = \
-            lambda omega: self.j_function(omega) * self._cutoff_function(omega)
-
         super().__init__(name, description)
+
+    def __setattr__(self, name, value):
+        """Set an attribute; cached integrals depend on the parameters. """
+        super().__setattr__(name, value)
+        CustomSD.eta_function.cache_clear()
+
+    def _cutoff_function(self, omega):
+        """The cutoff function for the current cutoff and cutoff type. """
+        return CUTOFF_DICT[self.cutoff_type](omega, self.cutoff)
+
+    def _spectral_density(self, omega):
+        """The spectral density for the current parameters. """
+        return self.j_function(omega) * self._cutoff_function(omega)
 
     def __str__(self) -> Text:
         ret = []
@@ -740,15 +753,21 @@ class PowerLawSD(CustomSD):
         self.cutoff = tmp_cutoff
 
         # use parent class for all the rest.
-        j_function = lambda w: 2.0 * self.alpha * w ** self.zeta \
-                               * self.cutoff ** (1 - zeta)
-
-        super().__init__(j_function,
+        super().__init__(self._power_law,
                          cutoff=cutoff,
                          cutoff_type=cutoff_type,
                          temperature=temperature,
                          name=name,
                          description=description)
+
+    def _power_law(self, omega):
+        """The power law (without cutoff) for the current parameters. """
+        return 2.0 * self.alpha * omega ** self.zeta \
+            * self.cutoff ** (1 - self.zeta)
+
+    def _spectral_density(self, omega):
+        """The spectral density for the current parameters. """
+        return self._power_law(omega) * self._cutoff_function(omega)
 
     def __str__(self) -> Text:
         ret = []
